@@ -30,6 +30,11 @@ CLAIMED = {
             "input-preservation obligations; exceptions on any feasible path are violations", "§4 C06"),
     "C07": ("same scenario as C06; overlap / cut-off / greedy-matching / small-motion identity obligations against an "
             "independent min-image oracle, decided by z3 for all positions, radii and cut-offs", "§4 C07"),
+    "C08": ("bounded symbolic execution of to_file / from_file of Emulsion, EmulsionTimeCourse, DropletTrack, "
+            "DropletTrackList against an in-memory HDF5 store model: 13 droplet layouts (5 classes x dims x mode "
+            "counts), 0-3 members/frames/tracks incl. empty ones and a 12-frame course, unset widths, all numbers "
+            "symbolic; obligations: equality by the classes' own __eq__ and term-by-term (same class, layout, "
+            "parameters, times, order); inconsistent members must raise or round-trip", "§4 C08"),
     "C10": ("bounded symbolic execution of remove_overlapping / get_pairwise_distances / overlaps / "
             "get_neighbor_distances / from_random on n<=3 (thorough 4) droplets, dims 1-3, with and without periodic "
             "grids; positions, radii, minimal distance and rng draws symbolic; independent min-image oracle", "§4 C10"),
